@@ -29,7 +29,11 @@ Unconstrained by the property (accepted either way by the oracle, still compared
   (code: neighbours in range); stddev where >= 2 neighbours are in range but at most one has non-zero weight (0/0 or x/0).
 Attribution keys: C04.neighbour_info.*, C04.weights, C04.mean, C04.mean.missing_slot_leak, C04.mean.placeholder_weight, C04.fill, C04.mask, C04.count[.k1|.mask],
   C04.stddev[.undefined|.mask], C04.uncert.return[.empty], C04.shape, C04.error.<Exception>.
-Not translated by py2coq: the anchored functions are numpy array loops, not loop-free scalar code; the tie is the correspondence.
+Translator (tools/gen_specs/GenC04.json, regenerated on every run, characterised in Proofs/C04_gen.v): the accumulation loop body and the
+  normalisation block of _resample_with_weights, the loop body and the final-estimator block of _calculate_uncertainty (single- and
+  multi-channel branches) and the closure of resample_gauss.  Correspondence only: the gather / weight-evaluation loops (fancy indexing,
+  masked stores into copies, user callables), _extract_resample_result, _prepare_result, _remask_data, _prepare_and_fill_uncertainty_result
+  (array plumbing: reshape, np.full, channel slicing, numpy.ma construction) and _query_resample_kdtree (pykdtree).
 """
 import math
 import struct
@@ -38,6 +42,7 @@ from fractions import Fraction
 from .common import fhex, evals
 
 PROP_FILE = "Properties/C04.v"
+GEN = ["GenC04"]
 RUN_FILES = ["Model/C04_run.v"]
 
 U = 2.0 ** -53
@@ -819,9 +824,35 @@ def run(ctx):
             multi = any(sum(1 for ix in row if ix != nv) >= 2 for row in o["index"]) and c["k"] > 1
             holes = any(ix == nv for row in o["index"] for ix in row) or j.stats.get("cells_filled", 0) > 0
             nontriv = multi and holes
+        ctx.count("src:%s/tgt:%s" % (c["src"]["kind"], c["tgt"]["kind"]))
+        ctx.count("channels=%d" % c["C"])
+        ctx.count("fill:" + ("None" if c["fill"] is None else "number"))
+        if c["reduce_data"]:
+            ctx.count("reduce_data")
+        if c["segments"]:
+            ctx.count("segments=2")
+        if c["mode"] == "custom":
+            for w in c["wf"]:
+                ctx.count("wf:" + w[0])
+        else:
+            ctx.count("wf:gauss", max(c["C"], 1))
+        if "error" not in o:
+            if not all(o["valid_in"]):
+                ctx.count("some_source_invalid_or_reduced")
+            if not all(o["valid_out"]):
+                ctx.count("some_target_invalid")
+            if c["k"] > sum(o["valid_in"]):
+                ctx.count("k_exceeds_valid_sources")
         ctx.case(("c04", repr(c)), nontrivial=nontriv,
-                 sample={"case": {kk: c[kk] for kk in ("k", "mode", "dtype", "C", "fill", "with_uncert", "stream")},
-                         "radius": unhex(c["radius"]), "index": o.get("index", [])[:3], "result": o.get("res", {}).get("val", [])[:3]})
+                 sample={c["stream"]: {kk: c[kk] for kk in ("k", "mode", "dtype", "C", "fill", "with_uncert", "reduce_data")},
+                         "weights": c.get("sigmas") and [unhex(x) for x in c["sigmas"]] or [[w[0], unhex(w[1])] for w in c.get("wf", [])],
+                         "geometry": "%s %s -> %s %s" % (c["src"]["kind"], len(o.get("src_lonlat", [])), c["tgt"]["kind"], len(o.get("tgt_lonlat", []))),
+                         "radius_m": unhex(c["radius"]), "masked_input": c["mask"] is not None,
+                         "index_rows": o.get("index", [])[:3],
+                         "distance_rows": [[round(unhex(x), 3) if unhex(x) != float("inf") else "inf" for x in row] for row in o.get("dist", [])[:3]],
+                         "result": [[unhex(x) for x in row] for row in o.get("res", {}).get("val", [])[:3]],
+                         "result_mask": (o.get("res", {}).get("mask") or [])[:3],
+                         "count": [[unhex(x) for x in row] for row in o.get("cnt", {}).get("val", [])[:3]] if "cnt" in o else None})
         for key, what in j.fail:
             ctx.add_failure(key, what, {"case": c})
         if hasattr(j, "coq"):
